@@ -97,6 +97,55 @@ EnterEpochStall()
   return failures ? 1 : 0;
 }
 
+// C17: a worker is stalled inside GetProtectedEpochs AFTER it published its epoch and before the chain lookup; the
+// coordinator advances across two node boundaries while another guard keeps an intermediate node linked.  The list
+// handed to the worker must still be the one of its own epoch.
+static int
+LookupStall()
+{
+  EpochManager mgr{};
+  size_t guard_epoch = 0, list_front = 0, list_size = 0;
+  bool descending = true, has_prev = true, stable = true;
+  for (int i = 0; i < 444; ++i) mgr.ForwardGlobalEpoch();  // epoch 700, node [512, 768)
+  // W: GetThreadID (2 ops), EnterEpoch = load + store (2 ops); HOLD before the next atomic operation (the lookup)
+  vsched::Start({{0, 4, true}, {7, 1, false}});
+  std::vector<size_t> copy;
+  std::thread w([&] {
+    vsched::Register(0);
+    auto &&[guard, list] = mgr.GetProtectedEpochs();
+    guard_epoch = guard.GetProtectedEpoch();
+    list_size = list.size();
+    list_front = list.empty() ? 0 : list.front();
+    for (size_t i = 1; i < list.size(); ++i) descending = descending && list[i - 1] > list[i];
+    has_prev = guard_epoch <= EpochManager::kInitialEpoch || (list.size() > 1 && list[1] == guard_epoch - 1);
+    copy = list;
+    stage.store(1);
+    WaitStage(2);
+    stable = (copy == list);
+    stage.store(3);
+  });
+  while (vsched::Pos() < 1) std::this_thread::yield();
+  for (int i = 0; i < 300; ++i) mgr.ForwardGlobalEpoch();  // epoch 1000, node [768, 1024)
+  std::thread pin([&] {
+    auto g = mgr.CreateEpochGuard();  // keeps the intermediate node linked
+    WaitStage(3);
+  });
+  std::this_thread::sleep_for(std::chrono::milliseconds(50));
+  for (int i = 0; i < 300; ++i) mgr.ForwardGlobalEpoch();  // epoch 1300, head node [1280, 1536)
+  vsched::Finish();
+  WaitStage(1);
+  for (int i = 0; i < 700; ++i) mgr.ForwardGlobalEpoch();  // the list must stay untouched while the guard is alive
+  stage.store(2);
+  w.join();
+  pin.join();
+  std::printf("guard reports epoch %zu; returned list: size %zu, first element %zu\n", guard_epoch, list_size, list_front);
+  if (list_front != guard_epoch) FAIL("GetProtectedEpochs returned a list whose first element (%zu) is not the epoch the guard reports (%zu)", list_front, guard_epoch);
+  if (!descending) FAIL("returned list is not strictly descending");
+  if (!has_prev) FAIL("returned list does not contain the preceding epoch");
+  if (!stable) FAIL("the returned list was modified while its guard was alive");
+  return failures ? 1 : 0;
+}
+
 // C02: MCSLock enqueue -- T1 is preempted between its exchange on the lock word and the plain store that records the
 // predecessor flags in its own node; T2 enqueues behind it and writes its link into T1's node; T1's store erases the
 // link: T1's release waits for a link that never comes, T2 waits for a hand-off that never happens.
@@ -155,6 +204,45 @@ McsNodeLeak()
   return failures ? 1 : 0;
 }
 
+// C04: a guard variable that is re-assigned from a new guard of the same thread (g = mgr.CreateEpochGuard()), or an
+// outer guard whose thread creates and destroys a second guard, must still pin an epoch that the coordinator publishes.
+static int
+EpochGuardOverlap(bool nested)
+{
+  EpochManager mgr{};
+  std::vector<size_t> lst;
+  size_t reported = 0, min = 0;
+  std::thread w([&] {
+    auto g = mgr.CreateEpochGuard();
+    const size_t first = g.GetProtectedEpoch();
+    mgr.ForwardGlobalEpoch();
+    if (nested) {
+      auto inner = mgr.CreateEpochGuard();  // destroyed at the end of this block; g stays alive
+      (void)inner;
+    } else {
+      g = mgr.CreateEpochGuard();  // the first grant ends, the guard now owns the second one
+    }
+    reported = g.GetProtectedEpoch();
+    // the guard was completely created before these forwards start and is alive when they return
+    for (int i = 0; i < 3; ++i) mgr.ForwardGlobalEpoch();
+    min = mgr.GetMinEpoch();
+    std::thread reader([&] {
+      auto &&[guard, list] = mgr.GetProtectedEpochs();
+      lst = list;
+    });
+    reader.join();
+    std::printf("first guard pinned %zu; live guard now reports %zu; GetMinEpoch = %zu; published list:", first, reported, min);
+    for (size_t e : lst) std::printf(" %zu", e);
+    std::printf("\n");
+  });
+  w.join();
+  bool in_list = false;
+  for (size_t e : lst) in_list = in_list || e == reported;
+  if (!in_list) FAIL("%s: the live guard reports epoch %zu, which is not in the protected-epoch list published for the new epoch (its protection was dropped)", nested ? "outer guard after an inner guard of the same thread was destroyed" : "g = mgr.CreateEpochGuard() over a live guard", reported);
+  if (min > reported) FAIL("GetMinEpoch() = %zu exceeds the epoch %zu of a live guard", min, reported);
+  return failures ? 1 : 0;
+}
+
 int
 main(int argc, char **argv)
 {
@@ -163,6 +251,9 @@ main(int argc, char **argv)
   int rc = 3;
   if (sc == "id-exit-order") rc = IdExitOrder();
   if (sc == "enter-epoch-stall") rc = EnterEpochStall();
+  if (sc == "lookup-stall") rc = LookupStall();
+  if (sc == "epoch-guard-reassign") rc = EpochGuardOverlap(false);
+  if (sc == "epoch-nested-guard") rc = EpochGuardOverlap(true);
   if (sc == "mcs-lost-link") rc = McsLostLink();
   if (sc == "mcs-node-leak") rc = McsNodeLeak();
   std::fflush(stdout);
